@@ -26,33 +26,16 @@ class TimelineProcess(Process):
         super(TimelineProcess, self).__init__(parameters)
 
     def initialize_timeline(self):
-        # sort the timeline
+        # sort the timeline by time, keeping the listed order of events
+        # with equal times, which are merged into one event
         timeline = []
-        for new_event in self.parameters['timeline']:
-            if not timeline:
-                timeline.append(new_event)
-                continue
-
-            new_time = new_event[0]
-            for event_index, event in enumerate(timeline):
-                time = event[0]
-                if new_time == time:
-                    # merge events
-                    timeline[event_index][1].update(new_event[1])
-                    break
-                elif event_index == len(timeline) - 1:
-                    # append as last event
-                    timeline.append(new_event)
-                    break
-                elif new_time < time:
-                    # next
-                    continue
-                elif new_time > time:
-                    next_time = timeline[event_index + 1][0]
-                    if new_time < next_time:
-                        # add event into middle of timeline
-                        timeline = timeline[:event_index + 1] + [new_event] + timeline[event_index + 2:]
-                        break
+        for time, changes in sorted(
+                self.parameters['timeline'], key=lambda event: event[0]):
+            if timeline and timeline[-1][0] == time:
+                # merge events
+                timeline[-1][1].update(changes)
+            else:
+                timeline.append((time, dict(changes)))
 
         self.timeline = timeline
 
@@ -82,6 +65,7 @@ class TimelineProcess(Process):
     def next_update(self, timestep, states):
         time = states['global']['time']
         update = {'global': {'time': timestep}}
+        remaining = []
         for (t, change_dict) in self.timeline:
             if time >= t:
                 for path_to_variable, value in change_dict.items():
@@ -93,6 +77,8 @@ class TimelineProcess(Process):
                     nested_set(update_at_path, path_to_variable, update_value)
                     update = deep_merge_combine_lists(update, update_at_path)
 
-                self.timeline.pop(0)
                 log.info('timeline update: {}'.format(update))
+            else:
+                remaining.append((t, change_dict))
+        self.timeline = remaining
         return update
